@@ -52,15 +52,18 @@ Theorem C17_domains :
   /\ in_domain S5ops domain_423 (s5_of_Q 2) (s5_of_Q 2) = true /\ in_domain S5ops domain_423 (s5_of_Q 1) (s5_of_Q (3#2)) = false
   /\ in_domain S5ops domain_523 (mk5 (5#2) (-1#2)) s5_S2 = true /\ in_domain S5ops domain_523 (s5_of_Q (3#2)) (s5_of_Q 3) = false.
 Proof. vm_compute. repeat split; reflexivity. Qed.
+Print Assumptions C17_domains.
 
 (* uniform families (over R; the trigonometric quantities enter as positive parameters) *)
 Theorem C17_ngon_unit_area :
   forall n s : R, (0 < n)%R -> (0 < s)%R ->
     let area0 := (/ 2 * n * s)%R in let rho := sqrt (1 / area0) in (/ 2 * n * (rho * rho) * s = 1)%R.
 Proof. exact ngon_unit_area. Qed.
+Print Assumptions C17_ngon_unit_area.
 Theorem C17_prism :
   forall n t h : R, (0 < n)%R -> (0 < t)%R -> (0 < h)%R -> (h * h * h = 4 / n * t)%R ->
     let A := (1 / h)%R in (A * h = 1 /\ 4 * A * t / n = h * h)%R.
 Proof. exact prism_unit_volume_equal_edges. Qed.
+Print Assumptions C17_prism.
 (* partial: antiprism / pyramid / dipyramid closed forms are validated numerically for every admissible n
    (volume and centroid by the exact C01 model on the binary64 vertices, edge lengths in binary64). *)
